@@ -5,9 +5,10 @@ from typing import Dict
 
 CHECKS: Dict[str, Dict[str, str]] = {
     "C12": dict(
-        technique="static analysis: path-condition extraction (ast) of Constant.__init__ decided on a complete finite "
-        "abstract domain (7 type kinds x 7 value kinds x 5 range positions) + constant folding of the extracted "
-        "inclusive_value_range expressions for every width",
+        technique="static analysis: Constant.__init__ and the inclusive_value_range definitions are abstractly evaluated from the "
+        "parsed source (constructor chain flattened, helpers expanded) on a complete finite abstract domain (type kind "
+        "x value kind incl. code-point classes x range position; all 63+64 integer widths and the three float formats) "
+        "and compared with the Specification's acceptance table and range tables",
         text="Static decision of the constant-compliance rules from the source: the acceptance predicate of "
         "Constant.__init__ is extracted as path conditions and compared with the Specification on every abstract state "
         "(the code touches values only through isinstance tests and comparisons against the two bounds, so the "
@@ -18,9 +19,10 @@ CHECKS: Dict[str, Dict[str, str]] = {
         design="3/C12",
     ),
     "C05": dict(
-        technique="static analysis: guard extraction (ast path conditions, constructor flattening through super().__init__) "
-        "decided as accepted regions / truth tables over finite boundary domains; reserved-name patterns compared by "
-        "DFA language equivalence; exception-class resolution over the class hierarchy",
+        technique="static analysis: constructors of the type model abstractly evaluated over finite boundary domains (accepted "
+        "regions on both sides of every boundary); decision tables of the directive handlers and of finalize via the "
+        "builder driven through its public callbacks; reserved-name patterns compared by DFA language equivalence; "
+        "exception-class resolution over the class hierarchy",
         text="Every static rule of DSDL is located at its rule site (constructors of the type model, check_name, the "
         "_check_aggregation overrides, directive handlers, _make_composite, finalize, the regulated port-ID tables, the "
         "array forms of the parser) and decided from the source: numeric guards as accepted regions that include both sides "
@@ -33,9 +35,10 @@ CHECKS: Dict[str, Dict[str, str]] = {
         design="3/C05",
     ),
     "C11": dict(
-        technique="static analysis: path-condition extraction of the two cross-definition checks into propositional formulas "
-        "over accessor-comparison atoms, compared with the Specification on all consistent valuations; structural "
-        "extraction of the grouping loops and of the check scopes",
+        technique="static analysis: the two cross-definition checks are abstractly evaluated from the parsed source over abstract "
+        "definitions for every consistent valuation of the accessor-comparison atoms (name, kind, majors, port-IDs "
+        "incl. zero, extent, sealing, service halves); outcome (accept / which error class) compared with the "
+        "Specification's formula; grouping and scopes observed on the same evaluation",
         text="The cross-definition checks touch definitions only through comparisons of a few accessors, so each decision is a "
         "function of finitely many atoms: the collision predicate (9 atoms, 280 consistent valuations) and the pairwise "
         "minor-version predicate (10 atoms, 640 valuations, including recursion into service halves and the error class) are "
@@ -47,9 +50,10 @@ CHECKS: Dict[str, Dict[str, str]] = {
         design="3/C11",
     ),
     "C02": dict(
-        technique="static analysis: dataflow extraction + constant folding of the prefix / tag / header width expressions over "
-        "every capacity and variant-count class; layout definitions translated to terms of the bit-length-set algebra and "
-        "compared with the Specification's terms",
+        technique="static analysis: prefix / tag / header width expressions evaluated over every capacity and variant-count "
+        "class; every bit_length_set definition and both aggregation helpers abstractly evaluated over operands of an "
+        "abstract bit-length-set domain (canonical algebra terms with alignment facts, abstract branches explored both "
+        "ways) and compared with the Specification's terms",
         text="Implicit-field widths are folded from the extracted expressions for 189 capacities x 2 alignments and 95 variant "
         "counts x 2 alignments (both sides of every 2**8/2**16/2**32 boundary) and compared with 'smallest of 8/16/32/64'; "
         "alignment definitions are folded over the reachable alignment domain; every bit_length_set definition and both "
@@ -87,8 +91,10 @@ CHECKS: Dict[str, Dict[str, str]] = {
         design="3/C18",
     ),
     "C19": dict(
-        technique="static analysis: who-may-call rule for ReadableDSDLFile.read / .text over the resolved call graph with receiver "
-        "provenance; metadata-only access lint on lookup-list elements; argument provenance of the cross-definition checks",
+        technique="static analysis: the reading pipeline (namespace reader, reference resolver, DSDLDefinition.read / "
+        "constructor, namespace lister, _complete_read_function) abstractly evaluated from the parsed source over an "
+        "abstract world of definition files that record every read / text load / content access; observations compared "
+        "with the dependency closure",
         text="Decides that only targets and the single filter-selected dependency are ever evaluated: every call site of read "
         "and every load of .text is enumerated from the call graph and its receiver must be a loop variable over the "
         "target list (or its file-pool twin), found[0] of the name+version filter, or self inside read; elements of lookup "
@@ -116,8 +122,8 @@ CHECKS: Dict[str, Dict[str, str]] = {
     "C03": dict(
         technique="static analysis: typestate automaton extracted from the parser and builder code (abstract interpretation over "
         "the control state header-flag x pending-callback), explored exhaustively over grammar-derived line shapes and "
-        "endings; grammar terminals compared as regular languages; append-only / who-may-call lints; decision tables of the "
-        "directive handlers",
+        "endings; the builder driven through its public callbacks with composite / attribute constructors recorded; "
+        "grammar terminals compared as regular languages; decision tables of the directive handlers",
         text="The attribute pipeline is a two-stage buffer; its correctness is a typestate property decided on an automaton that "
         "is read off the code: every visitor's ordered effects (flush, queue, commit, schema reads, `---`) are extracted by "
         "abstract interpretation and all sequences of line shapes (empty, blanks, comment, each statement kind with and "
@@ -131,8 +137,9 @@ CHECKS: Dict[str, Dict[str, str]] = {
         design="3/C03",
     ),
     "C07": dict(
-        technique="static analysis: exception-flow over the call graph rooted at deserialize; guard extraction folded over boundary "
-        "domains; inductive linear-form accounting of the bit offset on every path of read_bits / write_bits",
+        technique="static analysis: exception-flow over the call graph rooted at deserialize with semantic discharge of partial "
+        "operations; validation guards taken as decision tables from abstract decoder runs over boundary domains; "
+        "linear-form accounting of the bit offset and of the bounded reader's limit on every path (helpers expanded)",
         text="(1) Every (class, origin) that can escape deserialize is a SerDesError/ValueError (TypeError only from the explicit "
         "service-type guards); indexing, struct.unpack and bytes() sites are discharged by dominating bounds checks, format "
         "sizes and 8-bit element provenance. (2) The array-length, union-tag and both delimiter-header guards are extracted "
@@ -157,9 +164,10 @@ CHECKS: Dict[str, Dict[str, str]] = {
         design="3/C17",
     ),
     "C04": dict(
-        technique="static analysis: the grammar file is parsed into a PEG model and the expression-rule layering is turned into a "
-        "precedence/associativity table; ordered-choice prefix analysis; resolution of every operator token through visitor, "
-        "expression function, Any method and concrete implementation (symbol-table chase); path-shape lints",
+        technique="static analysis: PEG model of the grammar file -> precedence / associativity table and ordered-choice hazards; "
+        "the expression visitors, operator functions (with their decorators evaluated from source) and value classes "
+        "abstractly evaluated over symbolic operands that record which Python operator is applied to which operands in "
+        "which order; value-dependent cases explored both ways; compared with the Specification's operator table",
         text="Decides the precedence clause for all expression trees at once: the nine binding levels, their token sets, left/right "
         "associativity (`**` right-associative with an inversion on its right, unary minus over an exponential) and the "
         "left fold are computed from the grammar layering and the chain visitor and compared with the Specification table; "
@@ -187,8 +195,9 @@ CHECKS: Dict[str, Dict[str, str]] = {
         design="3/C01",
     ),
     "C09": dict(
-        technique="static analysis: extraction of the reference filter predicate and of the resolution outcome table (path conditions "
-        "over match count / letter case), dataflow of the lookup list through read() and the builder, single-store lint on the cache",
+        technique="static analysis: DataTypeBuilder.resolve_versioned_data_type and DSDLDefinition.read abstractly evaluated from "
+        "the parsed source over abstract lookup definitions (match count x letter case x version), with recorded reads, "
+        "arguments, builder constructions, file opens and cache behaviour",
         text="Decides: the filter is (case-insensitive full name) and (exact version) over the lookup list; the outcome over "
         "{0, 1, >=2 matches} x exact-case is undefined-type / name-collision / collision / read-that-definition, each error an "
         "InvalidDefinitionError; relative names are completed with the referrer's namespace; read() removes itself by "
@@ -200,9 +209,10 @@ CHECKS: Dict[str, Dict[str, str]] = {
         design="3/C09",
     ),
     "C10": dict(
-        technique="static analysis: order-taint dataflow (unordered kinds: sets, set comprehensions, rglob) with sorted()/file_sort as "
-        "sanitisers and commutative loop bodies as safe consumers; sign analysis of the sort key; extracted transition table of "
-        "the direct/transitive bookkeeping explored over its abstract states; truth table of the nested-root predicate",
+        technique="static analysis: order-taint dataflow (unordered kinds: sets, set comprehensions, rglob) with "
+        "sorted()/file_sort as sanitisers; sign analysis of the sort key; the namespace lister, the reader loop and the "
+        "root-directory validation abstractly evaluated over an abstract file system / abstract definitions / syntactic "
+        "paths, for every order of the targets and every pair of directories",
         text="Decides: every unordered collection in the four reader modules is sorted before it is returned or drives an "
         "order-sensitive loop (interprocedural through arguments); the key is (name up, major down, minor down) with no reverse "
         "flag; read_namespace lists both suffixes recursively under exactly the root and returns only `.direct`; the reader "
@@ -215,9 +225,10 @@ CHECKS: Dict[str, Dict[str, str]] = {
         design="3/C10",
     ),
     "C15": dict(
-        technique="static analysis: path-condition extraction of the file-name decision folded over component counts, taint rule "
-        "(file-name part -> number) with sanitiser recognition, provenance comparison of the identity arguments through "
-        "finalize / _make_composite / constructors / accessors, loop-shape rule for the bare-name root inference",
+        technique="static analysis: DSDLDefinition's constructor abstractly evaluated over syntactic paths (component counts, "
+        "numeric spellings); identity provenance observed by driving DataTypeBuilder through its public callbacks with "
+        "the composite constructors recorded; bare-name root inference evaluated over syntactic paths for every order "
+        "of the names",
         text="Decides: 3 / 4 dot-separated components map to (name, major, minor) / (port, name, major, minor) and every other count "
         "is a FileNameFormatError; the namespace is the directory chain below and including the root; every numeric component "
         "is converted only behind an ASCII-digits guard inside a translating handler (the lax int() found here was repaired); "
@@ -229,9 +240,11 @@ CHECKS: Dict[str, Dict[str, str]] = {
         design="3/C15",
     ),
     "C06": dict(
-        technique="static analysis: layout traces (ALIGN / BITS / EMIT / FOR / IF events) extracted from the writer and reader "
-        "branches and compared event for event with each other and with the Specification's layout; dispatch exhaustiveness "
-        "over the resolved class hierarchy; constant folding of the cast-mode actions; defaults table extraction",
+        technique="static analysis: the codec (_serialize_any / _deserialize_any and their helpers) abstractly evaluated from the "
+        "parsed source over abstract schemas with an abstract writer / reader that record ALIGN / BITS / HEADER / "
+        "SUBREADER events; writer events compared with reader events and with the Specification's layout; dispatch "
+        "exhaustiveness over the class hierarchy; cast-mode actions evaluated over the whole width domain; defaults "
+        "table",
         text="Decides the structural agreement of the independently written layout walkers - a necessary condition for the round "
         "trip and for 'the produced length is an element of bit_length_set': writer and reader traces are identical for "
         "structures, unions, both array kinds and every primitive kind; the writer's traces equal the layout model "
@@ -244,9 +257,9 @@ CHECKS: Dict[str, Dict[str, str]] = {
         design="3/C06",
     ),
     "C08": dict(
-        technique="static analysis: the offset iterators are translated into traces over terms of the bit-length-set algebra "
-        "(assignments, loops, yields in order) and compared with the Specification's; exactly-once-yield lint; wiring of the "
-        "in-language intrinsics by dataflow and selection agreement",
+        technique="static analysis: the offset iterators abstractly evaluated over abstract fields in the bit-length-set term "
+        "domain; each yielded offset compared with the aggregation of the preceding fields; exactly-once-yield "
+        "observation; wiring of the in-language intrinsics by dataflow and evaluation",
         text="Decides: the four iterators (structure, union, delimited, fixed array) pad the base to the type's alignment and "
         "place each field / element exactly where the layout model and the encoder place it (the iterator's per-field step is "
         "the aggregation step of the layout model), with one unconditional yield per iteration; `_offset_` is the aggregate of "
@@ -257,8 +270,9 @@ CHECKS: Dict[str, Dict[str, str]] = {
         design="3/C08",
     ),
     "C14": dict(
-        technique="static analysis: dependence analysis of the delimited type's layout term, attribute-usage lint on containers, "
-        "layout traces of the delimited writer / reader branches, who-may-access rule on the reader's buffer and interface",
+        technique="static analysis: the container layout evaluated for two revisions of a nested delimited type (term domain); "
+        "attribute-usage lint on containers; codec runs of the delimited writer / reader branches compared with "
+        "stand-alone runs of the inner type; who-may-access rule on the reader's buffer contents",
         text="Decides the three structural pillars of appendable types: (1) the delimited type's length set is a term over header "
         "width, alignment and declared extent only (the inner type is consulted only in the guard) and containers ask a nested "
         "type only for its length set and alignment - so a same-extent revision cannot change a container's set, extent or "
